@@ -43,6 +43,7 @@ REQUIRED = [
     "C17_old_still_field",
     "C17_share_only_equal",
     "C17_globals_unchanged",
+    "C17_unguarded_external_variables_rewrites_global",
 ]
 BUDGET = {"quick": 80, "thorough": 2400}
 QUICK_JOBS = 8
@@ -60,7 +61,7 @@ RULE = (
 ASSUMPTIONS = [
     "contents of variables are abstract identities (fingerprint classes); data types, HDF5 storage, chunking and bytes on "
     "disk are outside the model and are covered by the oracle's netCDF4 view (sha of raw data, dtype) on every case",
-    "the model covers fields/domains without compression by convention, geometries, external variables, scalar "
+    "the model covers fields/domains without compression by convention, geometries, scalar "
     "formula-term parameters, UGRID and groups (groups are refused in append mode); scenarios with those features "
     "are judged by the oracle alone (tag unmodelled)",
     "the reader is abstract in the theorems: any function of the read footprint (the variable, everything reachable from it "
@@ -94,7 +95,7 @@ def mk_case(spec, tags=()):
 def _tags(spec):
     t = ["fmt:" + spec.get("fmt", "NETCDF4"), f"appends:{len(spec['batches'])}"]
     mods = [m[0] for b in spec["batches"] for f in b for m in f.get("mods", ())]
-    for name in ("groups", "ft", "domain", "fill", "global", "coordncvar", "dimname", "perturb", "delbounds"):
+    for name in ("extmsr", "groups", "ft", "domain", "fill", "global", "coordncvar", "dimname", "perturb", "delbounds"):
         if name in mods:
             t.append("mod:" + name)
     if any("from" in f for b in spec["batches"] for f in b):
@@ -118,6 +119,10 @@ FIXED = [
     {"fmt": "NETCDF4", "s0": [{"ex": 0}], "batches": [[{"ex": 5, "mods": [["groups", ["forecast"]]]}]]},
     {"fmt": "NETCDF4", "s0": [{"ex": 0}], "batches": [[{"from": [0, 0], "mods": [["newdata", 1]]}], [{"from": [0, 0], "mods": [["newdata", 2], ["perturb", 0, 2]]}],
                                                       [{"from": [2, 0], "mods": [["newdata", 3], ["ncvar", "q"]]}]]},
+    # external cell measures: name not listed by the dataset / listed / another one on the second append, with an external= file
+    {"fmt": "NETCDF4", "s0": [{"ex": 0}], "batches": [[{"from": [0, 0], "mods": [["newdata", 7], ["stdname", "air_temperature"], ["extmsr", "areacella", False]]}]]},
+    {"fmt": "NETCDF4", "s0": [{"ex": 0, "mods": [["extmsr", "areacella", False]]}],
+     "batches": [[{"from": [0, 0], "mods": [["newdata", 8], ["ncvar", "ta"]]}], [{"ex": 0, "mods": [["ncvar", "ua"], ["extmsr", "areacello", True]]}]], "external": True},
     {"fmt": "NETCDF3_CLASSIC", "s0": [{"ex": 0}, {"ex": 2}], "batches": [[{"from": [0, 1], "mods": [["newdata", 4], ["delbounds", 1]]}]]},
 ]
 
